@@ -664,6 +664,7 @@ func init() {
 				func(e *txEval) {
 					e.checkCancel(c)
 					e.checkProofs(c)
+					e.checkSafe(c, false) // a cancelled transaction is never reported safe afterwards
 					if len(e.tr.drops) > 0 {
 						c.Probe("connection_lost_once")
 					}
@@ -675,5 +676,17 @@ func init() {
 		Run: func(c *Ctx) {
 			runTxCheck(c, txGenOpts{conflicts: 1, blocks: true, untrusted: true, local: true, maxTxs: 8},
 				func(e *txEval) { e.checkSafe(c, true) })
+		}})
+	Register(&Check{Prop: "C07", Sub: "safe-trajectory-restart", Weight: 1, Real: txReal, Stub: txStub,
+		Req:  []string{"in_sync_reached", "safe_reported"},
+		Rule: "the same histories with a clean stop and a new node on the same disk at a tape-chosen instant (half of the runs): 'safe at most once' and 'never safe after unsafe' also hold across the restart.",
+		Run: func(c *Ctx) {
+			runTxCheck(c, txGenOpts{conflicts: 1, blocks: true, untrusted: true, local: true, maxTxs: 8, restart: true},
+				func(e *txEval) {
+					e.checkSafe(c, false)
+					if len(e.tr.restarts) > 0 {
+						c.Probe("restarted")
+					}
+				})
 		}})
 }
